@@ -127,15 +127,19 @@ def published_schema_ok(decisions):
     return not list(_VALIDATOR.iter_errors(doc))
 
 
-def run_generic(base, local, remote, name, snapshot=False, extra=None):
-    """One run of the generic JSON merger: decide_merge + apply_decisions."""
+def run_generic(base, local, remote, name, snapshot=False, extra=None, gstrat=None):
+    """One run of the generic JSON merger: decide_merge + apply_decisions (gstrat: {path: strategy})."""
     from nbdime.merging.generic import decide_merge
     from nbdime.merging.decisions import apply_decisions
     run = {"name": name}
     if extra:
         run.update(extra)
     try:
-        decisions = decide_merge(base, local, remote)
+        if gstrat:
+            from nbdime.utils import Strategies
+            decisions = decide_merge(base, local, remote, Strategies(gstrat))
+        else:
+            decisions = decide_merge(base, local, remote)
         merged = apply_decisions(base, decisions)
     except Exception as e:  # noqa
         t, w = exc_info(e)
